@@ -74,6 +74,8 @@ pub struct Cell {
     pub spelling: String,
     /// a system-call fault injected into the sylt process (with `strace -e inject`), restricted to one path
     pub fault: Option<SyscallFault>,
+    /// the flags are written after the main file on the command line instead of before it
+    pub flags_last: bool,
 }
 
 #[derive(Clone, Debug, PartialEq)]
@@ -107,6 +109,7 @@ impl Cell {
             .set("peer", J::s(&self.peer))
             .set("input", J::s(&self.input))
             .set("spelling", J::s(&self.spelling))
+            .set("flags_last", J::Bool(self.flags_last))
             .set(
                 "fault",
                 match &self.fault {
@@ -125,6 +128,7 @@ impl Cell {
             input: j.str_of("input"),
             spelling: if j.str_of("spelling").is_empty() { "absolute".into() } else { j.str_of("spelling") },
             fault: j.get("fault").and_then(|f| f.as_obj().map(|_| SyscallFault { syscall: f.str_of("syscall"), error: f.str_of("error"), when: f.u64_of("when") as u32, on: f.str_of("on") })),
+            flags_last: j.bool_of("flags_last"),
         }
     }
     pub fn label(&self) -> String {
@@ -137,6 +141,7 @@ impl Cell {
             if self.no_std { "+no-std" } else { "" },
             if self.input != "present" { "+main-missing" } else { "" }
         ) + &self.fault.as_ref().map(|f| format!("+{}", f.label())).unwrap_or_default()
+            + if self.flags_last { "+flags-after-file" } else { "" }
     }
 }
 
@@ -174,12 +179,12 @@ pub fn all_cells(req_a: &str, req_b: &str) -> Vec<Cell> {
             if (peer == "P1s-slow-reader" || peer == "P0-lua-absent" || peer == "P5-fails-without-reading") && (req.is_some() || *ns) {
                 continue;
             }
-            out.push(Cell { mode: "run".into(), require: req.clone(), no_std: *ns, target: String::new(), peer: peer.into(), input: "present".into(), spelling: "absolute".into(), fault: None });
+            out.push(Cell { mode: "run".into(), require: req.clone(), no_std: *ns, target: String::new(), peer: peer.into(), input: "present".into(), spelling: "absolute".into(), fault: None, flags_last: false });
         }
         for target in ["O1-absent", "O2-existing", "O2b-existing-longer", "O3-parent-missing", "O4-is-directory", "O5-component-is-file", "O6-dev-full"] {
-            out.push(Cell { mode: "file".into(), require: req.clone(), no_std: *ns, target: target.into(), peer: String::new(), input: "present".into(), spelling: "absolute".into(), fault: None });
+            out.push(Cell { mode: "file".into(), require: req.clone(), no_std: *ns, target: target.into(), peer: String::new(), input: "present".into(), spelling: "absolute".into(), fault: None, flags_last: false });
         }
-        out.push(Cell { mode: "stdout".into(), require: req.clone(), no_std: *ns, target: String::new(), peer: String::new(), input: "present".into(), spelling: "absolute".into(), fault: None });
+        out.push(Cell { mode: "stdout".into(), require: req.clone(), no_std: *ns, target: String::new(), peer: String::new(), input: "present".into(), spelling: "absolute".into(), fault: None, flags_last: false });
     }
     for mode in ["run", "file", "stdout"] {
         out.push(Cell {
@@ -191,7 +196,12 @@ pub fn all_cells(req_a: &str, req_b: &str) -> Vec<Cell> {
             input: "main-missing".into(),
             spelling: "absolute".into(),
             fault: None,
+            flags_last: false,
         });
+    }
+    // the same invocations with the flags written after the main file
+    for (mode, target, peer, req, ns) in [("file", "O1-absent", "", Some(req_a.to_string()), false), ("stdout", "", "", None, true), ("run", "", "P1-ok", Some(req_b.to_string()), false), ("file", "O2-existing", "", None, false)] {
+        out.push(Cell { mode: mode.into(), require: req, no_std: ns, target: target.into(), peer: peer.into(), input: "present".into(), spelling: "absolute".into(), fault: None, flags_last: true });
     }
     // system-call faults in the sylt process itself, tied to one path (the strace injection seam)
     let f = |syscall: &str, error: &str, on: &str| Some(SyscallFault { syscall: syscall.into(), error: error.into(), when: 1, on: on.into() });
@@ -207,10 +217,10 @@ pub fn all_cells(req_a: &str, req_b: &str) -> Vec<Cell> {
         ("stdout", "", f("openat", "EACCES", "main")),
         ("file", "O1-absent", f("openat", "EMFILE", "main")),
     ] {
-        out.push(Cell { mode: mode.into(), require: None, no_std: false, target: target.into(), peer: String::new(), input: "present".into(), spelling: "absolute".into(), fault });
+        out.push(Cell { mode: mode.into(), require: None, no_std: false, target: target.into(), peer: String::new(), input: "present".into(), spelling: "absolute".into(), fault, flags_last: false });
     }
-    out.push(Cell { mode: "help".into(), require: None, no_std: false, target: String::new(), peer: String::new(), input: "present".into(), spelling: "absolute".into(), fault: None });
-    out.push(Cell { mode: "noargs".into(), require: None, no_std: false, target: String::new(), peer: String::new(), input: "present".into(), spelling: "absolute".into(), fault: None });
+    out.push(Cell { mode: "help".into(), require: None, no_std: false, target: String::new(), peer: String::new(), input: "present".into(), spelling: "absolute".into(), fault: None, flags_last: false });
+    out.push(Cell { mode: "noargs".into(), require: None, no_std: false, target: String::new(), peer: String::new(), input: "present".into(), spelling: "absolute".into(), fault: None, flags_last: false });
     out
 }
 
@@ -443,12 +453,17 @@ impl Runner {
                     args.push(t.clone());
                     target_path = Some(t);
                 }
-                args.push(match cell.spelling.as_str() {
+                let main_arg = match cell.spelling.as_str() {
                     "bare" => main_name.clone(),
                     "dot-slash" => format!("./{}", main_name),
                     "relative-dir" => format!("{}/{}", main_dir_name, main_name),
                     _ => main_real.clone(),
-                });
+                };
+                if cell.flags_last {
+                    args.insert(0, main_arg);
+                } else {
+                    args.push(main_arg);
+                }
             }
         }
         let mut before = BTreeMap::new();
@@ -1053,7 +1068,7 @@ pub fn run_c20(tier: &str, batch_seed: u64) -> LayerBResult {
                     a.no_std_equiv_checked += 1;
                 }
                 if let Some(vv) = nostd_violation {
-                    let cell = Cell { mode: "file".into(), require: None, no_std: true, target: "O1-absent".into(), peer: String::new(), input: "present".into(), spelling: "absolute".into(), fault: None };
+                    let cell = Cell { mode: "file".into(), require: None, no_std: true, target: "O1-absent".into(), peer: String::new(), input: "present".into(), spelling: "absolute".into(), fault: None, flags_last: false };
                     let doc = layer_b_doc("C20", &vv, &prog, &cell, &ProcObs::default(), &root, batch_seed, i);
                     a.violations.entry(vv.id()).or_insert((doc, 0)).1 += 1;
                 }
@@ -1192,7 +1207,25 @@ const ENVS: &[&[(&str, &str)]] = &[
 ];
 
 fn c16_observe(runner: &Runner, prog: &Program, root: &str, rep: usize) -> String {
-    let mut cell = Cell { mode: "file".into(), require: None, no_std: false, target: "O1-absent".into(), peer: String::new(), input: "present".into(), spelling: "absolute".into(), fault: None };
+    // every compilation requires the same module name; whether a file of that name happens to exist next to
+    // the sources (or is a symbolic link) is part of the environment and must not matter
+    let mut cell = Cell { mode: "file".into(), require: Some("./zz_req/glue.lua".into()), no_std: false, target: "O1-absent".into(), peer: String::new(), input: "present".into(), spelling: "absolute".into(), fault: None, flags_last: false };
+    let req_dir = format!("{}/zz_req", root);
+    let _ = std::fs::remove_dir_all(&req_dir);
+    let _ = std::fs::remove_file(&req_dir);
+    match rep % 3 {
+        0 => {}
+        1 => {
+            let _ = std::fs::create_dir_all(&req_dir);
+            let _ = std::fs::write(format!("{}/glue.lua", req_dir), "return {}\n");
+        }
+        _ => {
+            let real = format!("{}/zz_req_real_dir", root);
+            let _ = std::fs::create_dir_all(&real);
+            let _ = std::fs::write(format!("{}/glue.lua", real), "return {}\n");
+            let _ = std::os::unix::fs::symlink(&real, &req_dir);
+        }
+    }
     let env: Vec<(String, String)> = ENVS[rep % ENVS.len()].iter().map(|(k, v)| (k.to_string(), v.to_string())).collect();
     if rep % 3 == 2 {
         // history through the file system: the output path still holds what an earlier compilation
@@ -1216,7 +1249,7 @@ fn c16_observe(runner: &Runner, prog: &Program, root: &str, rep: usize) -> Strin
 /// processes: the peer gives up at once, or after 40, 150 or 600 ms - before, while or after sylt writes
 /// the program to it. What sylt reports must not depend on who wins.
 fn c16_peer_schedule_divergence(runner: &Runner, prog: &Program, root: &str) -> Option<String> {
-    let cell = Cell { mode: "run".into(), require: None, no_std: false, target: String::new(), peer: "P5-fails-without-reading".into(), input: "present".into(), spelling: "absolute".into(), fault: None };
+    let cell = Cell { mode: "run".into(), require: None, no_std: false, target: String::new(), peer: "P5-fails-without-reading".into(), input: "present".into(), spelling: "absolute".into(), fault: None, flags_last: false };
     let see = |o: &ProcObs| format!("exit={:?}\n{}", o.exit, normalise(root, &strip_ansi(&String::from_utf8_lossy(&o.stdout))));
     let a = see(&runner.run_cell(prog, &cell, root, &[]));
     for delay in ["40", "150", "600"] {
@@ -1435,7 +1468,7 @@ pub fn run_c07_processes(tier: &str, batch_seed: u64) -> LayerBResult {
                 } else {
                     ("file", "O1-absent", "")
                 };
-                let cell = Cell { mode: mode.into(), require: None, no_std, target: target.into(), peer: peer.into(), input: "present".into(), spelling: spelling.into(), fault };
+                let cell = Cell { mode: mode.into(), require: None, no_std, target: target.into(), peer: peer.into(), input: "present".into(), spelling: spelling.into(), fault, flags_last: false };
                 let obs = runner.run_cell(&prog, &cell, &root, &[]);
                 let mut verdict = judge_c07_process(&obs);
                 let strict = prog.files.values().map(|t| gen::nesting_depth_strict(t)).max().unwrap_or(0);
@@ -1608,7 +1641,7 @@ pub fn run_c12_processes(tier: &str, batch_seed: u64) -> LayerBResult {
                         }
                     }
                 }
-                let cell = Cell { mode: "file".into(), require: None, no_std: c.no_std, target: "O1-absent".into(), peer: String::new(), input: "present".into(), spelling: c.main_spelling.clone(), fault: None };
+                let cell = Cell { mode: "file".into(), require: None, no_std: c.no_std, target: "O1-absent".into(), peer: String::new(), input: "present".into(), spelling: c.main_spelling.clone(), fault: None, flags_last: false };
                 let obs = runner.run_cell(&prog, &cell, &root, &[]);
                 let want = if p.expect_ok { 0 } else { 1 };
                 let mut r = result.lock().unwrap();
